@@ -142,10 +142,39 @@ def prog_make_wolfe(shared):
         run.ghost["base_pc"] = list(run.pc)
         c = dict(X=X, G=G, ax=ax, ag=ag, lo=lo, n=n, eps=eps)
 
+        # hypothesis of the identity clause: every consecutive input pair satisfies the curvature condition.
+        # It is represented by a boolean constant H of which only instances (forall-elimination) are ever assumed:
+        # whatever is proved under H holds for the real hypothesis.
+        hyp = z3.Bool("H_all_input_pairs_valid")
+
+        def hyp_instance(idx):
+            return z3.Implies(z3.And(hyp, idx >= lo, idx < lo + n - 1),
+                              curv(z3.Select(ax, idx + 1), z3.Select(ag, idx + 1), z3.Select(ax, idx),
+                                   z3.Select(ag, idx), eps))
+
+        def same_suffix(dqx, dqg, count):
+            """the deques hold exactly the last `count` input pairs, in order"""
+            cx, cg = run.heap[dqx.ref], run.heap[dqg.ref]
+            if isinstance(cx, list):
+                xs = [run.heap[e.ref] for e in cx]
+                gs = [run.heap[e.ref] for e in cg]
+                return z3.And(z3.IntVal(len(xs)) == count,
+                              *[z3.And(xs[j] == z3.Select(ax, lo + n - len(xs) + j),
+                                       gs[j] == z3.Select(ag, lo + n - len(xs) + j)) for j in range(len(xs))])
+            j = z3.Int("j_same")
+            return z3.And(cx.hi - cx.lo == count, cg.hi - cg.lo == count, cx.lo == cg.lo,
+                          z3.ForAll([j], z3.Implies(z3.And(j >= 0, j < count),
+                                                    z3.And(z3.Select(cx.a, cx.lo + j) == z3.Select(ax, lo + n - count + j),
+                                                           z3.Select(cg.a, cg.lo + j) == z3.Select(ag, lo + n - count + j)))))
+
         def inv(interp, env, phase):
             _X, _G = env.get("_X"), env.get("_G")
             i = zint(env.get("__i"))
             out = []
+            out.append(("identity_on_valid_history", z3.Implies(hyp, same_suffix(_X, _G, i + 1)), ("C13",)))
+            if phase == "assume":
+                # the instance of the hypothesis for the pair examined by this iteration (k = ncor - i - 1)
+                out.append(("hyp_instance", hyp_instance(lo + n - 2 - i), ("C13",)))
             m = dq_len(run, _X)
             out.append(("lengths", z3.And(m >= 1, m == dq_len(run, _G), m <= i + 1), ("C13",)))
             out.append(("ncor", zint(env.get("ncor")) == n - 1, ("C13",)))
@@ -181,6 +210,7 @@ def prog_make_wolfe(shared):
                    ("C13",))
         run.oblige(tag + "::ensures::retained_pairs_satisfy_curvature",
                    dq_pairs_forall(run, nX, nG, lambda a, cc, d, e: curv(a, cc, d, e, eps)), ("C13", "C10"))
+        run.oblige(tag + "::ensures::identity_on_valid_history", z3.Implies(hyp, same_suffix(nX, nG, n)), ("C13",))
         run.oblige(tag + "::ensures::fresh_deques", nX.ref not in (X.ref, G.ref) and nG.ref not in (X.ref, G.ref)
                    and run.region[nX.ref] == "local" and run.region[nG.ref] == "local", ("C13", "C14"), backend="frame")
         cx, cg = run.heap[X.ref], run.heap[G.ref]
